@@ -109,9 +109,11 @@ Definition TAGS1 : list str := [bs "gb"%bs].
 Definition SEPS1 : list byte := [":"%byte; "|"%byte].
 Definition TAGS2 : list str := [bs "emb"%bs; bs "dbj"%bs; bs "sp"%bs; bs "tr"%bs; bs "ref"%bs; bs "lcl"%bs].
 Definition SEPS2 : list byte := ["|"%byte].
-(* the pattern text this matcher was written for; tied to /repo by the theorem C01_idpattern_pinned *)
+(* the pattern this matcher was written for, [^\s]*gb[:|]([^,|;\s]+)|[^\s]*(?:emb|dbj|sp|tr|ref|lcl)[|]([^,|;\s]+)|([^,|;\s]+),
+   in the structural form tools/gens/c01.py:canon_regex derives from CPython's parse tree (so that equivalent spellings such as
+   \S for [^\s], \| for [|] or reordered tags are the same pattern); tied to /repo by the theorem C01_idpattern_pinned *)
 Definition IDPATTERN_PINNED : str :=
-  bs "[^\s]*gb[:|]([^,|;\s]+)|[^\s]*(?:emb|dbj|sp|tr|ref|lcl)[|]([^,|;\s]+)|([^,|;\s]+)"%bs.
+  (bs "('alt', (('seq', (('rep', 'greedy', 0, 'inf', ('space', False)), ('lit', 'gb'), ('set', False, (('c', ':'), ('c', '|'))), ('group', 1, ('rep', 'greedy', 1, 'inf', ('set', True, (('c', ','), ('c', ';'), ('c', '|'), ('cat', 'CATEGORY_SPACE'))))))), ('seq', (('rep', 'greedy', 0, 'inf', ('space', False)), ('alt', (('lit', 'dbj'), ('lit', 'emb'), ('lit', 'lcl'), ('lit', 'ref'), ('lit', 'sp'), ('lit', 'tr'))), ('lit', '|'), ('group', 2, ('rep', 'greedy', 1, 'inf', ('set', True, (('c', ','), ('c', ';'), ('c', '|'), ('cat', 'CATEGORY_SPACE'))))))), ('group', 3, ('rep', 'greedy', 1, 'inf', ('set', True, (('c', ','), ('c', ';'), ('c', '|'), ('cat', 'CATEGORY_SPACE')))))))"%bs).
 
 Definition match_idpattern (h : str) : option str :=
   let w := takewhile non_ws h in
